@@ -318,6 +318,25 @@ def _fallback_model(fl: Flow) -> tuple[Any, Any, Any, list[tuple[int, ast.Call]]
     return is_fb, awaited, scenario, recv
 
 
+def check_plain_primary(run: Run, prog: Program, rule: str) -> None:
+    """Without a fallback configured fetch_next() is the plain primary read: nothing of the fallback is
+    dereferenced (that would raise on None) and the call can return.  Shared with C06 (a fetch that raises
+    in the common configuration drops every round)."""
+    raw = prog.func(f"{MF}.fetch_next")
+    fl = Flow(prog, fetch_unit(prog))
+    cfg = fl.cfg
+    is_fb, _aw, scenario, _recv = _fallback_model(fl)
+    derefs = [n.id for n in cfg.nodes if n.ast is not None and n.id in fl.live and any(
+        isinstance(x, ast.Attribute) and isinstance(x.ctx, ast.Load) and is_fb(x.value, n.id)
+        for part in own_parts(n) if not isinstance(n.ast, (ast.FunctionDef, ast.AsyncFunctionDef)) for x in ast.walk(part))]
+    handed = [nid for nid, c in fl.calls(lambda c: method_call(c, "self", "fetch_next_with_fallback"))]
+    wit = cfg.path(cfg.entry, derefs + handed, edge_ok=scenario(configured=False))
+    plain = cfg.path(cfg.entry, [cfg.exit], edge_ok=scenario(normal_only=True, configured=False))
+    run.check(wit is None and plain is not None, rule, raw.qual, "if self._fallback is None: primary only",
+              "the fallback is dereferenced without checking that one is configured", node=raw.node, file=raw.file,
+              path=cfg.describe_path(wit))
+
+
 def check_lazy(run: Run, prog: Program) -> None:
     """Decided per scenario on the CFG of _fetch_next (private helpers spliced in): the conditions
     `self._fallback is None`, `self._fallback.is_running` and `self._is_value_valid(<received>.value)`
@@ -405,12 +424,7 @@ def check_lazy(run: Run, prog: Program) -> None:
                           "a failing primary stream does not start the fallback", node=cfg.nodes[m].ast, file=raw.file,
                           path=cfg.describe_path(wit))
     # no fallback configured: plain primary, the fallback is never dereferenced
-    none_e = scenario(configured=False)
-    wit = cfg.path(cfg.entry, starts + sync + running_reads, edge_ok=none_e)
-    plain = cfg.path(cfg.entry, [cfg.exit], edge_ok=scenario(normal_only=True, configured=False))
-    run.check(wit is None and plain is not None, "C19.LAZY", raw.qual, "if self._fallback is None: primary only",
-              "the fallback is dereferenced without checking that one is configured", node=raw.node, file=raw.file,
-              path=cfg.describe_path(wit))
+    check_plain_primary(run, prog, "C19.LAZY")
     # what apply() later pushes (self._next_value) is the sample this very call fetched, and it is what is returned
     def is_source(e: ast.AST | None) -> bool:
         c = unawait(e)
@@ -493,8 +507,13 @@ def check_sync(run: Run, prog: Program, rule: str = "C19.SYNC") -> None:
             else:
                 foreign.append(c2)
     recv = sorted(set(recv))
-    if len(recv) < 2 or not sites:
-        raise AnalysisError(f"{fn.qual}: expected the initial and the catch-up receive, found {len(recv)}")
+    if not sites:
+        raise AnalysisError(f"{fn.qual}: no read of the fallback stream found")
+    if len(recv) < 2:
+        run.violation(rule, fn.qual, "first-use read and catch-up read of the fallback",
+                      f"the fallback stream is read at {len(recv)} place(s) only: both the first use (nothing cached yet) and "
+                      "the catch-up loop (cached sample older than the primary) must read it", node=fn.node, file=fn.file)
+        return
     for sflow, r, _c in sites:
         s = sflow.cfg.nodes[r].ast
         ok = isinstance(s, (ast.Assign, ast.AnnAssign)) and u(s.targets[0] if isinstance(s, ast.Assign) else s.target) == LATEST \
